@@ -51,15 +51,18 @@ def proof_stage(plan, ev):
         t = run([sys.executable, V + '/tools/translate.py'], cwd=V)
         res['translate'] = t.stdout.strip()[-2000:]
         res['translate_ok'] = t.returncode == 0
-        b = run(['lake', 'build', plan['module'], 'driver'], cwd=LEAN)
-        if b.returncode != 0:
-            res['detail'] = 'lake build failed:\n' + b.stdout[-4000:]
-            res['obligations'] = len(plan['theorems'])
+        d = run(['lake', 'build', 'driver'], cwd=LEAN)
+        if d.returncode == 0:
+            # keep a private copy of the driver so that a concurrent rebuild cannot replace it mid-run
+            os.makedirs(ev['work'], exist_ok=True)
+            shutil.copy(LEAN + '/.lake/build/bin/driver', ev['work'] + '/driver')
+        b = run(['lake', 'build', plan['module']], cwd=LEAN)
+        if b.returncode != 0 or d.returncode != 0:
+            errs = [l for l in (d.stdout + b.stdout).split('\n') if l.startswith('error:')]
+            res['detail'] = 'lake build failed: theorem(s) no longer check:\n' + '\n'.join(errs[:12]) + '\n' + b.stdout[-1500:]
+            res['obligations'] = max(len(plan['theorems']), 1)
             return res
         a = run(['lake', 'env', 'lean', '--run', V + '/tools/Audit.lean', plan['module']], cwd=LEAN)
-        # keep a private copy of the driver so that a concurrent rebuild cannot replace it mid-run
-        os.makedirs(ev['work'], exist_ok=True)
-        shutil.copy(LEAN + '/.lake/build/bin/driver', ev['work'] + '/driver')
     try:
         audit = json.loads(a.stdout.strip().split('\n')[-1])
     except Exception:
